@@ -121,6 +121,30 @@ def _residue() -> Dict[str, int]:
             "all_reference_ids": len(pp.all_reference_ids)}
 
 
+_CANARY: List[Any] = []
+
+
+def _canary() -> str:
+    """A fixed, unrelated render through the Python API that touches the state a render keeps per thread / process:
+    a slot function that prints its default content (`slot_ref`), inject() with a default outside every provider, a
+    root element.  'Every later render behaves as if the failed one had never happened': after any run it must give
+    what it gives in a fresh process."""
+    if not _CANARY:
+        from django_components import Component
+
+        class VfCanary(Component):
+            template = '<i>{% slot "s" default %}DEF{% endslot %}</i>[{{ inj }}]'
+
+            def get_context_data(self):
+                return {"inj": self.inject("vf_nokey", "none")}
+        _CANARY.append(VfCanary)
+    try:
+        out = _CANARY[0].render(slots={"s": lambda ctx, data, ref: f"<b>{ref}</b>"}, render_dependencies=False)
+        return P.RENDERED_RE.sub("", P.DJCID_RE.sub("", str(out)))
+    except BaseException as e:  # noqa: BLE001
+        return "raised " + type(e).__name__
+
+
 def _run_once(prog, at: int, exc, record: bool = False) -> Dict[str, Any]:
     """One top-level render with fault plan `at`; everything observed from outside."""
     from django.template import Context, Template
@@ -168,6 +192,8 @@ def _run_once(prog, at: int, exc, record: bool = False) -> Dict[str, Any]:
             del e2
         PLAN.update(exc=None, log=[])
     del ctx, marker, ctxd
+    if record:
+        res["canary"] = _canary()
     gc.collect()
     res["alive"] = sum(1 for r in refs if r() is not None)
     res["residue"] = _residue()
@@ -258,6 +284,9 @@ def judge(chk: Check, prog, exp, res) -> None:
         bad = {k: v for k, v in r["after_residue"].items() if v}
         if bad:
             chk.violation(c, {"what": "residue-after-next-render", "residue": bad})
+            continue
+        if r.get("canary") != dry.get("canary"):
+            chk.violation(c, {"what": "unrelated-later-render-affected", "canary_fresh": dry.get("canary"), "canary_after": r.get("canary")})
             continue
         if not r.get("ctx_restored", True):
             chk.violation(c, {"what": "Context-object-of-the-failed-render-keeps-layers-of-that-render"})
